@@ -278,6 +278,22 @@ def _native_charts(tier="quick", seed=0):
                     except Exception as e:
                         bad = bad or "%s: raised %r" % (what, e)
     rec("C07.native.xy_and_bubble_charts_valid_and_read_back", bad)
+    # 2b. a chart that holds no series (add_chart with data that has none, or a PowerPoint-authored empty plot) takes new data too
+    bad = None
+    for ct in cat_types[:3]:
+        d0, _, _ = _cat_data("strings", 0, random.Random(2))
+        d2, spec2b, ser2b = _cat_data("strings", 2, random.Random(3))
+        prs = Presentation()
+        sl = prs.slides.add_slide(prs.slide_layouts[6])
+        evals += 1
+        try:
+            chart = sl.shapes.add_chart(ct, 0, 0, Inches(3), Inches(2), d0).chart
+            chart.replace_data(d2)
+            b = _check_category_chart(chart, spec2b, ser2b, "%s: no series, then replace_data with 2 series" % ct.name)
+            bad = bad or b
+        except Exception as e:
+            bad = bad or "%s: chart added with no series, then replace_data with 2 series: raised %r" % (ct.name, e)
+    rec("C07.native.replace_data_on_a_chart_without_series", bad)
     # 3. replace_data with data of a different shape; formatting of surviving series and other chart content untouched
     reps = 2 if tier == "quick" else 6
     for ct in cat_types:
